@@ -8,7 +8,7 @@ n = int(sys.argv[2]); rnd = random.Random(int(sys.argv[3]) if len(sys.argv) > 3 
 cases = P.gen(rnd, os.environ.get("TIER", "quick"), n)
 work = os.path.join(B, "work", "pd-%d" % os.getpid()); os.makedirs(work, exist_ok=True)
 try:
-    t0 = time.time(); a = run_impl(os.path.join(ENV["CARGO_TARGET_DIR"], "debug", "rws_harness"), cases, work, timeout=getattr(P, "IMPL_TIMEOUT", 900)); t1 = time.time()
+    t0 = time.time(); a = run_impl(build_harness(), cases, work, timeout=getattr(P, "IMPL_TIMEOUT", 900)); t1 = time.time()
     ml = [P.model_input(c, o) for c, o in zip(cases, a)] if hasattr(P, "model_input") else cases
     b = run_model(os.path.join(B, "ocaml", "model_runner"), ml, work); t2 = time.time()
 finally:
